@@ -618,6 +618,40 @@ func runC14(s *Svc, m *spec.Method, tier string) *MethodResult {
 			r.Nontrivial++
 			c14Result(s, m, o, v, r, true)
 		}
+		// a required collection attribute the service leaves nil: by normalisation 1 the value is
+		// the empty collection; whatever the server writes for it must be what the document
+		// describes (only the response is judged here, C03/C04 leave these values out)
+		// (driven on the status family, whose dedicated design holds a required collection of
+		// every kind; the validation families would only repeat it per keyword)
+		if base := minimalResult(s, m); base != nil && !rl.Whole && m.Feat["family"] == "L2-status" {
+			if bo, ok := base.(spec.Obj); ok {
+				e := sp.Eff(m.Result)
+				for _, a := range e.Attrs {
+					ae := sp.Eff(a.T)
+					p := rl.ByAttr(a.Name)
+					if (ae.K != spec.KArray && ae.K != spec.KMap) || !spec.IsRequired(e.Required, a.Name) || p == nil || p.Loc != spec.LocBody {
+						continue
+					}
+					var empty any = spec.Arr{}
+					if ae.K == spec.KMap {
+						empty = spec.MapV{}
+					}
+					if len(sp.Check(a.T, empty, "")) > 0 {
+						continue // the empty collection violates the attribute's own rules: not a valid result
+					}
+					v2 := spec.Obj{}
+					for k, x := range bo {
+						if k != a.Name {
+							v2[k] = x
+						}
+					}
+					r.Cases++
+					r.Nontrivial++
+					r.note("results_with_a_required_collection_left_nil", 1)
+					c14Result(s, m, o, v2, r, true)
+				}
+			}
+		}
 	} else if m.Result != nil && !respShared {
 		r.note("viewed_results_not_checked_against_response_schemas", 1)
 	}
